@@ -319,6 +319,15 @@ def run_notif(code, sub, data):
     return out
 
 
+def _shaped_datas():
+    txt = b'going down for maintenance'
+    utf = 'Wartung \u00fc\u4e2d'.encode('utf-8')
+    return [b'\x00', bytes([len(txt)]) + txt, bytes([len(txt) - 1]) + txt, bytes([len(txt) + 1]) + txt,
+            bytes([len(utf)]) + utf, b'\x01x', b'\x02ab', b'\x00\x00', b'\x01\x00', bytes([127]) + b'a' * 127,
+            bytes([128]) + b'a' * 128, bytes([255]) + b'a' * 255, b'\xff' * 16 + b'\x00\x13\x04',
+            b'\x02\x06\x01\x04\x00\x01\x00\x01', b'\x00\x1a' + txt, txt + bytes([len(txt)])]
+
+
 def _filled(n, fill):
     return b'\xff' * n if fill == 'ff' else bytes(i % 251 for i in range(n))
 
@@ -367,6 +376,8 @@ def shards(tier):
         out.append({'name': 'notif-%d' % i, 'kind': 'notif', 'codes': list(range(i, 256, 4))})
     for i in range(2):
         out.append({'name': 'notif-len-%d' % i, 'kind': 'notif-len', 'part': i})
+    out.append({'name': 'notif-shaped', 'kind': 'notif-shaped'})
+    out.append({'name': 'notif-data', 'kind': 'notif-data', 'examples': 3000 if tier == 'quick' else 60000, 'hypothesis': True})
     out.append({'name': 'rr', 'kind': 'rr', 'examples': 2000 if tier == 'quick' else 40000, 'hypothesis': True})
     return out
 
@@ -445,6 +456,38 @@ def run_shard(spec, seed, col, tier):
                 n += 1
         col.bulk(n, n, label='notif-every-data-length', sample={'f': 'notif', 'code': 6, 'sub': 2, 'datalen': 4075,
                                                                 'fill': 'count'})
+    elif kind == 'notif-shaped':
+        # every code 0..8 and subcode 0..16 (all that the RFCs assign, and their neighbours) with Data that has an inner
+        # structure a decoder might be tempted to interpret: a length octet in front of text (RFC 8203 / 9003 shutdown
+        # communication, exact and off by one), a BGP marker, a capability TLV, an embedded message header
+        n = 0
+        for code in range(9):
+            for sub in range(17):
+                for data in _shaped_datas():
+                    for sig, detail in run_notif(code, sub, data):
+                        col.fail(sig, {'f': 'notif', 'code': code, 'sub': sub, 'data': data.hex()}, detail)
+                    n += 1
+        col.bulk(n, n, label='notif-shaped-data', sample={'f': 'notif', 'code': 6, 'sub': 2, 'data': _shaped_datas()[1].hex()})
+    elif kind == 'notif-data':
+        def body(case):
+            data = bytes.fromhex(case['data'])
+            col.case(case, len(data) > 0, labels=['notif-data', 'len-prefixed' if len(data) > 1 and data[0] == len(data) - 1
+                                                  else 'other-data'])
+            for sig, detail in run_notif(case['code'], case['sub'], data):
+                col.fail(sig, case, detail)
+        text = st.text(max_size=60).map(lambda t: t.encode('utf-8')[:255])
+        inner = st.one_of(st.binary(max_size=40), text, st.binary(min_size=100, max_size=300))
+        data = st.one_of(
+            inner,
+            inner.map(lambda b: bytes([len(b) & 255]) + b),                       # exact length octet in front
+            st.tuples(inner, st.sampled_from([-1, 1, 2])).map(lambda t: bytes([(len(t[0]) + t[1]) & 255]) + t[0]),
+            inner.map(lambda b: len(b[:65535]).to_bytes(2, 'big') + b),           # 2-octet length in front
+            inner.map(lambda b: b + bytes([len(b) & 255])))                       # length octet behind
+        strat = st.fixed_dictionaries({'f': st.just('notif'),
+                                       'code': st.one_of(st.integers(1, 7), st.integers(1, 7), vs.u8),
+                                       'sub': st.one_of(st.integers(0, 11), st.integers(0, 11), vs.u8),
+                                       'data': data.map(lambda b: b.hex())})
+        hyp_run(col, strat, body, seed, spec['examples'])
     elif kind == 'rr':
         def body(case):
             res = run_rr(case['afi'], case['res'], case['safi'], case['type'])
